@@ -495,6 +495,11 @@ func (p *Parser) parseData() (names []string, sequences map[string]string, nchar
 			stopmatrix := false
 			for !stopmatrix {
 				tok2, lit2 := p.scanIgnoreWhitespace()
+				// In the matrix, nexus keywords (data, end, gap, etc.) are
+				// sequence names like others
+				if tok2 >= NEXUS {
+					tok2 = IDENT
+				}
 				switch tok2 {
 				case OPENBRACK:
 					if tok2, lit2, err = p.consumeComment(tok2, lit2); err != nil {
@@ -509,6 +514,10 @@ func (p *Parser) parseData() (names []string, sequences map[string]string, nchar
 					sequence := ""
 					for !stopseq {
 						tok3, lit3 := p.scanIgnoreWhitespace()
+						// A sequence may be spelled as a nexus keyword (ex: END, GAP)
+						if tok3 >= NEXUS {
+							tok3 = IDENT
+						}
 						switch tok3 {
 						case IDENT:
 							sequence = sequence + lit3
